@@ -30,6 +30,7 @@ def run(ctx):
     arms_rule(ctx, syn)
     ident_rule(ctx, syn)
     add_rule(ctx, syn)
+    nocase_rule(ctx)
 
 
 # ====================================================================== LIMIT
@@ -601,3 +602,31 @@ def add_rule(ctx, syn):
 def children_of(e):
     from synq import children
     return list(children(e))
+
+
+# ====================================================================== NOCASE
+def nocase_rule(ctx):
+    """filter_text_byref(text, case_sensitive=false, ..) compares the lower-cased text of each candidate with `text` as it
+    is ("text MUST be a lower-cased &str").  The first-constraint implementation (find_text_nocase) lower-cases the
+    needle itself, so a later-position use that hands the user's text on unchanged matches nothing as soon as it holds
+    an upper-case letter: the result depends on where the constraint is written."""
+    import mirq
+    r = ctx.rule("C08.NOCASE", "every case-insensitive use of filter_text_byref passes a reference text that went through to_lowercase (the API compares lower-cased candidate text with the reference as it is)")
+    prog = mirq.Program(ctx.facts.mir())
+    n = 0
+    for bid, b in sorted(prog.bodies.items()):
+        if b.d.get("derived"):
+            continue
+        for bi, t in b.calls():
+            d = mirq.callee_of(t)[0] or ""
+            if not d.endswith("::filter_text_byref") or len(t.get("args", [])) < 3:
+                continue
+            n += 1
+            cs = (t["args"][2].get("k") or {}).get("v") if "k" in t["args"][2] else None
+            prov = sorted(b.provenance(t["args"][1]))
+            r.hit("%s#%d" % (bid, n), sample={"in": bid, "case_sensitive": cs, "text_derives_from": prov[:5]})
+            if cs == 1:
+                continue
+            if not any(x.endswith("to_lowercase") or x.endswith("to_ascii_lowercase") for x in prov):
+                ctx.report(r, bid, "%s filters case-insensitively with filter_text_byref on a reference text that is not lower-cased (derives from %s): `TEXT AS NOCASE \"Hello\"` matches as first constraint and nothing as a later one" % (bid, prov[:3]), b.file, t.get("line"))
+    r.notes.append("filter_text_byref call sites: %d" % n)
